@@ -249,7 +249,7 @@ def shard(part, n, seed, known, max_steps):
 def run(ctx):
     jobs = []
     ms = ctx.n(40, 200)
-    for part, nq, nt, k in (("step", 1200, 20000, 8), ("history", 320, 5000, 8)):
+    for part, nq, nt, k in (("step", 4000, 40000, 8), ("history", 800, 8000, 8)):
         for i, m in enumerate(core.split(ctx.n(nq, nt), k)):
             jobs.append((part, m, core.subseed(ctx.seed, part, i), ctx.known_sigs, ms))
     stats = core.Stats()
